@@ -81,13 +81,14 @@ def ev(e: ast.AST, env: dict[str, str], call_models=None):
     return None
 
 
-def explore(g: CFG, env: dict[str, str], call_models=None, stop_at=()):
+def explore(g: CFG, env: dict[str, str], call_models=None, stop_at=(), return_edges=False):
     """Set of nodes reachable from entry under env.  `call_models`: callables (call, env) ->
     'raise' | True | False | None describing modelled callees.  Exploration does not continue
     past nodes in stop_at (they are included)."""
     seen = {g.entry}
     work = [g.entry]
     stop = set(stop_at)
+    used_edges = set()
     while work:
         n = work.pop()
         if n in stop:
@@ -110,7 +111,10 @@ def explore(g: CFG, env: dict[str, str], call_models=None, stop_at=()):
             elif v is False:
                 edges = [(k, m) for k, m in edges if k != "t"]
         for k, m in edges:
+            used_edges.add((n, k, m))
             if m not in seen:
                 seen.add(m)
                 work.append(m)
+    if return_edges:
+        return seen, used_edges
     return seen
